@@ -19,6 +19,10 @@ MCFreshDirs == [t \in MCTops |-> t]
 MCFixedDir == [t \in MCTops |-> "garble-shared"]
 MCNoInherit == [t \in MCTops |-> "none"]
 MCNested == [t \in MCTops |-> IF t = "t2" THEN "t1" ELSE "none"]
+MCDbgAll == MCTops
+MCDbgT2 == {"t2"}
+MCWarmGo == {<<"lib", "c1">>, <<"main", "c1">>}
+MCDkLibOnly == {<<"lib", "c1", "compile">>, <<"lib", "c1", "asm">>}
 MCPkgSeq3 == <<"leaf", "mid", "main">>
 MCImports3 == [p \in {"leaf", "mid", "main"} |-> CASE p = "main" -> {"mid"} [] p = "mid" -> {"leaf"} [] OTHER -> {}]
 =============================================================================
